@@ -355,6 +355,9 @@ ALIASES = ['zqu', 'zqv', 'zqw']
 PLAINS = ['zqx', 'zqy', 'zqz']          # parameterless macros with plain-text bodies: the operands of \ifx (NF-prog 4)
 TEXT = 'abcxyzABC'
 TEXTO = '()+*|'
+# non-ASCII text: letters of other alphabets and a symbol.  For TeX (and for plasTeX's category table) none of them is a
+# letter of category 11, so directly after a control word they END the name: \\zqa\u00e9 is \\zqa applied to \u00e9
+NONASCII = '\u00e9\u00fc\u00df\u00f1\u20ac'
 
 
 class Sig:
@@ -387,7 +390,7 @@ class ProgGen:
     def word(self, forbid=''):
         rng = self.rng
         n = rng.randint(1, 3)
-        pool = [c for c in TEXT + (TEXTO if rng.random() < 0.3 else '') if c not in forbid]
+        pool = [c for c in TEXT + (TEXTO if rng.random() < 0.3 else '') + (NONASCII if rng.random() < 0.2 else '') if c not in forbid]
         return ''.join(rng.choice(pool) for _ in range(n))
 
     def new_sig(self, name, rank):
@@ -492,7 +495,7 @@ class ProgGen:
                 if rng.random() < 0.2:
                     out.append(' ')
                 if r < 0.35:
-                    pool = [c for c in TEXT if c not in forbid]
+                    pool = [c for c in TEXT + (NONASCII if rng.random() < 0.3 else '') if c not in forbid]
                     out.append(rng.choice(pool))
                 else:
                     out.append('{' + self.arg_content(forbid, inbody, depth + 1) + '}')
@@ -717,7 +720,14 @@ class ProgGen:
             self.has_p = True
         while self.budget > 0:
             out.append(self.item(0))
-        return out
+        # a control word is written with a blank after it; in front of a non-ASCII character the blank is not needed (the
+        # character is not a letter and ends the name) and is mostly left out, so that \\name directly meets such text
+        rng = self.rng
+        return [_GLUE.sub(lambda m: m.group(1) if rng.random() < 0.7 else m.group(0), it) for it in out]
+
+
+import re as _re0
+_GLUE = _re0.compile(r'(\\[a-zA-Z]+) (?=[' + NONASCII + '])')
 
 
 def gen_prog(rng, malformed=False):
@@ -806,6 +816,9 @@ def corpus():
         P('\\def\\zqx {}', '\\def\\zqy {pq}', '\\ifx\\zqx \\zqy T\\else F\\fi ', '\\ifx ab T\\else F\\fi ', '\\ifx aa T\\fi '),
         P('\\def\\zqx {ab}', '\\def\\zqy {abab}', '\\def\\zqt #1#2{\\ifx #1#2[s]\\else [d]\\fi }', '{\\zqt \\zqx \\zqy }', '\\zqt \\zqx \\zqx '),
         P('\\def\\zqx {xy}', '\\def\\zqy {xy}', '\\ifx\\zqx \\zqy \\ifx\\zqx \\zqx A\\else B\\fi \\else F\\fi ', '.'),
+        # a non-ASCII character directly after a control word ends the name (it is not a letter): \\zqa applied to it / followed by it
+        P('\\def\\zqa #1{(#1)}', '\\zqa\u00e9', '\\def\\zqb {W}', '\\zqb\u00fc', '\\zqa\\zqb\u00df', '\\zqa\u20ac'),
+        P('\\newcommand\\zqa [2][D]{(#1,#2)}', '\\zqa\u00f1x', '\\def\\zqb {[\\zqa\u00e9]}', '\\zqb '),
         # D50: \expandafter in front of a macro whose expansion is empty
         P('\\def\\zqa #1{}', '\\def\\zqe #1{[#1]}', '\\expandafter\\zqe \\zqa AB'),
         P('\\def\\zqa #1#2#3#4#5#6#7#8#9{#9#8#7#6#5#4#3#2#1}', '\\zqa 123456789'),
